@@ -63,6 +63,7 @@ def run_sequence(ctx, rng):
             if current["faults"] and current["faults"]["plugins"][self.i]:
                 self.broken = True           # a plugin in this state cannot even say what it is
                 raise RuntimeError("plugin %d cannot shut down" % self.i)
+            super().shutdown()               # a well-behaved subclass lets its base class clean up too
 
         def __str__(self):
             if getattr(self, "broken", False) and self.i % 2 == 0:
@@ -83,6 +84,8 @@ def run_sequence(ctx, rng):
     api.load_plugins = lambda config, custom=None: list(plugs)
     old_sys, old_thr = sys.gettrace(), threading.gettrace()
     cfg = ConfigService({"APP_ROOT": "/app", "NO_TRACE": no_trace, "SERVICE_URL": "localhost:1"}, tracepoints=TracepointConfigService())
+    for p_ in plugs:
+        p_.config = cfg                  # as load_plugins constructs them: every plugin knows the configuration it serves
     d = api.Deep(cfg)
     d.grpc.start = lambda: None
     d.poll = Poll()
